@@ -212,6 +212,59 @@ def job_fn(job):
     return out
 
 
+def shared_hierarchy_job(job):
+    """template OBJECTS shared with an earlier, edited circuit: a three-level target whose mid-level circuit and leaf
+    circuit are each one object under two keys; a decoy circuit is then built from the same mid-level object and one
+    of its nodes is overridden (update_var on the decoy, or on a copy-free derived template).  The target - built
+    before, never addressed - must still be the model of its spec."""
+    from pyrates import CircuitTemplate
+    from . import c07
+    import pyrates
+    spec, fp = c07.base_spec(job['shared'], 2, same_sub=True)
+    out = dict(violations=[], inconclusive=[], obligations=[], history=[], src='')
+    tally = decide.Tally()
+    ct = build_python(spec, share_circuits=True)
+    mid = ct.circuits['m0']
+    try:
+        if job['decoy'] == 'two-keys':
+            other = CircuitTemplate('other', circuits={'a': mid, 'b': mid})
+            other.update_var(node_vars={'a/c0/a0/o1/k': 6.5, 'b/c1/b0/li/x': 7.5})
+            out['history'].append("other = CircuitTemplate(circuits={'a': mid, 'b': mid}); other.update_var(a/c0/a0/o1/k, b/c1/b0/li/x)")
+        elif job['decoy'] == 'one-key-compiled':
+            other = CircuitTemplate('other', circuits={'a': mid})
+            other.update_var(node_vars={'a/c1/a1/o1/g': 6.5})
+            other.get_run_func('vf', step_size=0.25, vectorize=job['vectorize'], verbose=False, float_precision='float64',
+                               in_place=False, file_name='pyrates_run')
+            out['history'].append("other = CircuitTemplate(circuits={'a': mid}); other.update_var(a/c1/a1/o1/g); other.get_run_func")
+        else:
+            other = copy.deepcopy(ct)
+            other.update_var(node_vars={'m1/c0/a0/o1/k': 6.5})
+            ct.circuits['m1'].update_var(node_vars={})       # a no-op edit on the target's own sub-circuit
+            out['history'].append("deepcopy(target).update_var(m1/c0/a0/o1/k)")
+    except Exception as e:   # noqa
+        out['history'].append(f"decoy step raised {type(e).__name__}: {str(e)[:80]}")
+    # the target's own (legal) edits: every state variable gets its own initial value, so that positions are identifiable
+    ops, exp, _kw = c07.gen_history(spec, fp, random.Random(0), 0, 2)
+    out['exp_spec'] = exp
+    try:
+        c07.apply_ops(ct, ops)
+        c = tv.compile_template(ct, vectorize=job['vectorize'], in_place=False)
+    except Exception as e:   # noqa
+        out['violations'].append(dict(kind='compile-raises', what=f"after the history the target model cannot be "
+                                      f"compiled: {type(e).__name__}: {str(e)[:300]}"))
+        out['tally'] = tally.as_dict()
+        return out
+    out['src'] = c.src
+    res = tvspec.validate(exp, c, tally, vectorized=job['vectorize'])
+    for v_ in res['violations']:
+        v_['what'] = f"target after history: {v_.get('what')}"
+    out['violations'] += res['violations']
+    out['inconclusive'] += res['inconclusive']
+    out['obligations'] += res['obligations']
+    out['tally'] = tally.as_dict()
+    return out
+
+
 def _opcache_job(job):
     from pyverif.chh import c13_cache as H
     bad = []
@@ -303,6 +356,30 @@ def run(tier='quick', seed=0, only=None, verbose=False):
                        spec=job['spec'].describe(), spec_blob=tvspec.spec_blob(job['spec']), **v)
             rec['what'] = f"{job['key']}: {v.get('what')}"
             rep.violation(rec, v.get('finding') or findings.attribute('C13', job, rec))
+        for i in r['inconclusive']:
+            rep.inconcl(dict(key=job['key'], **{k: str(x)[:200] for k, x in i.items()}))
+    sj = [dict(key=f"shared-hierarchy:{decoy}:shared-nodes={sh}|vec={vec}", decoy=decoy, shared=sh, vectorize=vec,
+               spec=None)
+          for decoy in ('two-keys', 'one-key-compiled', 'copy') for sh in (True, False) for vec in (True, False)]
+    if tier == 'quick':
+        sj = [j for i, j in enumerate(sj) if i % 2 == (i // 4) % 2]
+    if only:
+        sj = [j for j in sj if only in j['key']]
+    from . import c07 as _c07
+    for job, outc in runner.run_jobs(shared_hierarchy_job, sj, timeout=600):
+        if not outc['ok']:
+            rep.harness_error(f"{job['key']}: {outc['error']} {outc.get('tb', '')[-400:]}")
+            continue
+        r = outc['result']
+        rep.add_stats(outc['stats'])
+        rep.add_tally(r['tally'])
+        rep.program(job['key'], nontrivial=bool(r['obligations']))
+        spec3 = r.get('exp_spec') or _c07.base_spec(job['shared'], 2, same_sub=True)[0]
+        for v in r['violations']:
+            rec = dict(property='C13', key=job['key'], history=r['history'], emitted_source=r['src'],
+                       spec=spec3.describe(), spec_blob=tvspec.spec_blob(spec3), **v)
+            rec['what'] = f"{job['key']}: {v.get('what')}"
+            rep.violation(rec, v.get('finding') or findings.attribute('C13', dict(job, spec=spec3), rec))
         for i in r['inconclusive']:
             rep.inconcl(dict(key=job['key'], **{k: str(x)[:200] for k, x in i.items()}))
     if not only or 'opcache' in only:
